@@ -14,6 +14,7 @@
 //! 2 harness error, 3 hang candidate (batch only; the driver re-executes it).
 
 mod core;
+mod des;
 mod refimpl;
 mod rng;
 mod runner;
@@ -138,13 +139,30 @@ fn cmd_batch(args: &Args) -> i32 {
     let budget = args.u64("--shrink-budget", 30);
     let mut found_json = Vec::new();
     let mut harness_error = false;
-    for (_k, f) in r.found.iter() {
+    // shrink all classes in parallel (each shrink is single-threaded)
+    let items: Vec<&runner::Found> = r.found.values().collect();
+    let shrunk: Vec<(Vec<u64>, u64)> = {
+        let res: std::sync::Mutex<Vec<Option<(Vec<u64>, u64)>>> = std::sync::Mutex::new(vec![None; items.len()]);
+        let next = std::sync::atomic::AtomicUsize::new(0);
+        let no_shrink = args.flag("--no-shrink");
+        std::thread::scope(|sc| {
+            for _ in 0..jobs.min(items.len()).max(1) {
+                sc.spawn(|| loop {
+                    let i = next.fetch_add(1, std::sync::atomic::Ordering::Relaxed);
+                    if i >= items.len() {
+                        break;
+                    }
+                    let f = items[i];
+                    let out = if no_shrink { (f.tape.clone(), 0) } else { shrink(&e, tier, f.tape.clone(), f.v.prop, &f.v.class, budget) };
+                    res.lock().unwrap()[i] = Some(out);
+                });
+            }
+        });
+        res.into_inner().unwrap().into_iter().map(|x| x.unwrap()).collect()
+    };
+    for (fi, f) in items.iter().enumerate() {
         let orig_len = f.tape.len();
-        let (tape, execs) = if args.flag("--no-shrink") {
-            (f.tape.clone(), 0)
-        } else {
-            shrink(&e, tier, f.tape.clone(), f.v.prop, &f.v.class, budget)
-        };
+        let (tape, execs) = shrunk[fi].clone();
         let path = format!("{}/{}-{}-{}-{}.json", replay_dir, f.v.prop, sanitize(&f.v.class), seed, f.run);
         if let Err(err) = write_replay_file(&path, &e, tier, seed, f.run, &f.v, &tape, orig_len, execs) {
             eprintln!("cannot write replay file {}: {}", path, err);
